@@ -200,28 +200,36 @@ func mutations(rng *rand.Rand, enc []byte, prefixes []prefixInst, fullTrunc bool
 	return out
 }
 
-// bigMutations: a handful of cases for multi-megabyte encodings
-func bigMutations(rng *rand.Rand, enc []byte, prefixes []prefixInst, target *site) []input {
+// bigMutations: a handful of cases for multi-megabyte encodings (fewer in the quick tier)
+func bigMutations(rng *rand.Rand, enc []byte, prefixes []prefixInst, target *site, full bool) []input {
 	out := []input{{mIdentity, enc}}
 	n := len(enc)
 	if n == 0 {
 		return out
 	}
-	out = append(out, input{mTruncate, enc[:n-1]}, input{mTruncate, enc[:rng.Intn(n)]})
-	out = append(out, input{mExtend, append(clone(enc), 0)})
+	out = append(out, input{mTruncate, enc[:n-1]})
+	if full {
+		out = append(out, input{mTruncate, enc[:rng.Intn(n)]}, input{mExtend, append(clone(enc), 0)})
+	}
 	for _, pi := range prefixes {
 		if pi.Site != target {
 			continue
 		}
-		for _, v := range []uint32{0, uint32(pi.Len + 1), uint32(pi.Len - 1), 1<<32 - 1, 1 << 31, 65536} {
+		vals := []uint32{uint32(pi.Len + 1), 1<<32 - 1}
+		if full {
+			vals = append(vals, 0, uint32(pi.Len-1), 1<<31, 65536)
+		}
+		for _, v := range vals {
 			b := clone(enc)
 			putLE32(b, pi.Off, v)
 			out = append(out, input{mPrefix, b})
 		}
 		break
 	}
-	b := clone(enc)
-	b[rng.Intn(n)] ^= 1 << uint(rng.Intn(8))
-	out = append(out, input{mBitflip, b})
+	if full {
+		b := clone(enc)
+		b[rng.Intn(n)] ^= 1 << uint(rng.Intn(8))
+		out = append(out, input{mBitflip, b})
+	}
 	return out
 }
